@@ -199,15 +199,16 @@ func genCode(t *rapid.T, n int, label string) []byte {
 func genRange(t *rapid.T, n int) ([]byte, []byte) {
 	lo := genCode(t, n, "lo")
 	hi := append([]byte{}, lo...)
-	// hi >= lo: raise the last byte(s)
-	k := rapid.IntRange(0, n-1).Draw(t, "hik")
-	if int(hi[k]) < 255 {
-		hi[k] = byte(rapid.IntRange(int(hi[k]), 255).Draw(t, "hiv"))
-		if hi[k] > lo[k] {
-			for i := k + 1; i < n; i++ {
-				hi[i] = byte(rapid.IntRange(0, 255).Draw(t, "hitail"))
-			}
-		}
+	// Ranges are rectangular, as in Adobe's CMap files (Technical Note
+	// 5014: a range is given per byte position): from a drawn position on
+	// every byte of hi is >= the byte of lo, so hi >= lo also as a number.
+	// Most often only the last byte differs.
+	k := n - 1
+	if rapid.Bool().Draw(t, "wide") {
+		k = rapid.IntRange(0, n-1).Draw(t, "hik")
+	}
+	for i := k; i < n; i++ {
+		hi[i] = byte(rapid.IntRange(int(lo[i]), 255).Draw(t, "hiv"))
 	}
 	return lo, hi
 }
@@ -414,7 +415,7 @@ func nontrivial(ms []*cmapref.CMap) bool {
 func TestP1CMaps(t *testing.T) {
 	rec := ev.New("C07", "cmaps")
 	defer rec.Finish(t)
-	rec.Rule("CMap files in the standard form from an independent serialiser: 1-3 CMaps per file (names may collide or be adjacent); name, CIDSystemInfo strings, supplement, CMapType, WMode 0/1 or absent, optional usecmap, optional missing /CMapName; 0-12 blocks of the seven kinds in any order with 0, 1-6, 20-99 or exactly 100 entries; codes of length 1-4 mixed, with corner bytes, duplicates and shared prefixes; destinations integer / string / name / array of strings and names as the kind allows; hex digit case, white space inside hex strings, comments, CR/LF/CRLF line ends. Oracle: the returned dictionary is one of the file's CMaps (by CMapName; which one is C17's business), with that CMap's system info, type, writing mode, usecmap, and each of the seven tables equal to its entries as a multiset and non-decreasing by source code (code-space ranges by length then code). Non-trivial: >= 2 blocks and >= 1 block with >= 2 entries; distinct by file bytes.")
+	rec.Rule("CMap files in the standard form from an independent serialiser: 1-3 CMaps per file (names may collide or be adjacent); name, CIDSystemInfo strings, supplement, CMapType, WMode 0/1 or absent, optional usecmap, optional missing /CMapName; 0-12 blocks of the seven kinds in any order with 0, 1-6, 20-99 or exactly 100 entries; codes of length 1-4 mixed, with corner bytes, duplicates and shared prefixes; range bounds rectangular (high byte >= low byte at every position, the form Adobe's CMap files use; half of them differ in the last byte only); destinations integer / string / name / array of strings and names as the kind allows; hex digit case, white space inside hex strings, comments, CR/LF/CRLF line ends. Oracle: the returned dictionary is one of the file's CMaps (by CMapName; which one is C17's business), with that CMap's system info, type, writing mode, usecmap, and each of the seven tables equal to its entries as a multiset and non-decreasing by source code (code-space ranges by length then code). Non-trivial: >= 2 blocks and >= 1 block with >= 2 entries; distinct by file bytes.")
 	ev.SetupRapid(30000, 1000000)
 	rapid.Check(t, func(t *rapid.T) {
 		n := rapid.IntRange(1, 3).Draw(t, "ncmaps")
